@@ -95,7 +95,7 @@ def step (st : St) (op impl : List String) : St × Option String × List String 
   | ["open", x, sid] =>
     let x := side x
     let sid := parseNat! sid
-    let r := openStream (st.s.ep x) sid
+    let r := openStream (st.s.ep x) sid 0
     let q := st.s.quiet sid
     fin (st.s.step (.openS x sid)) s!"h={r.2.1} new={b2s r.2.2} q={b2s q}"
   | ["write", x, h, len, u, m] =>
